@@ -2,6 +2,7 @@ import Tahoe.Base.DrvUtil
 import Tahoe.Immutable.Sizes
 import Tahoe.Immutable.Layout
 import Tahoe.Immutable.Pipeline
+import Tahoe.Immutable.Examples
 /-! Driver for C01 (immutable sizes, share layout, upload pipeline).
     `sizes SIZE K MAXSEG`            → `seg=S|Err;enc=…;dl=…`  (uploader segsize, encoder numbers, downloader numbers)
     `enc SIZE K SEGSIZE`             → encoder numbers `seg,nseg,share,tail,padded,block,tailblock` or the exception name
@@ -35,14 +36,6 @@ def showOffsets (o : Offsets) : String :=
 def verName : Ver → String
   | .v1 => "v1"
   | .v2 => "v2"
-
-/-- the pieces themselves as blocks: what a systematic code (zfec) produces for share numbers `< k` -/
-def sysCodec : Codec :=
-  { encode := fun _ _ pieces => pieces
-    decode := fun k _ blocks => (List.range k).map (fun j => ((blocks.find? (fun b => b.1 == j)).map (·.2)).getD []) }
-
-def ksOfBytes (stream : List UInt8) : Unit → Nat → Block16 :=
-  fun _ blk j => stream.getD (16 * blk + j.val) 0
 
 def handle : List String → String
   | ["sizes", size, k, maxSeg] =>
